@@ -8,7 +8,7 @@ use reed_solomon_simd::rate::*;
 
 const SB: usize = 2;
 
-pub fn enc_result<E: Enc>(kk: usize, r: usize) {
+pub fn enc_result<E: Enc + EncState>(kk: usize, r: usize) {
     let mut e = E::mk(kk, r, SB).unwrap();
     let mut round = 0;
     while round < 3 {
@@ -45,11 +45,12 @@ pub fn enc_result<E: Enc>(kk: usize, r: usize) {
             assert!(it.next().is_none());
             assert!(it.next().is_none());
         } // result dropped: the added shards are forgotten
+        assert!(e.snap().view.unwrap().original_received_count == 0, "dropping the result did not forget the added shards");
         round += 1;
     }
 }
 
-pub fn dec_result<D: Dec>(kk: usize, r: usize, om: u32, rm: u32) {
+pub fn dec_result<D: Dec + DecState>(kk: usize, r: usize, om: u32, rm: u32) {
     let mut d = D::mk(kk, r, SB).unwrap();
     let mut round = 0;
     while round < 2 {
@@ -95,6 +96,15 @@ pub fn dec_result<D: Dec>(kk: usize, r: usize, om: u32, rm: u32) {
             assert!(it.next().is_none());
             assert!(it.next().is_none());
             assert!(it.next().is_none());
+        }
+        // dropping the result forgot every added shard
+        let sn = d.snap();
+        let v = sn.view.unwrap();
+        assert!(v.original_received_count == 0 && v.recovery_received_count == 0, "dropping the result did not forget the added shards (counters)");
+        let mut i = 0;
+        while i < 16 {
+            assert!(!sn.received[i], "dropping the result did not forget the added shards (bitmap)");
+            i += 1;
         }
         round += 1;
     }
